@@ -253,9 +253,36 @@ def run_job(job):
                             "start_draws": draws_of((wseed, b""), reg.steps[0][1]), "finish_draws": draws_of((wseed, b""), fin),
                             "ksf_inputs": [bx(k["in"]) for k in fin.get("ksf", [])] if ":" not in su else None}
                 file_h = reg.file_h
-            lg = proto.login(s, rng, rng, "S", file_h, pw[1], cred[1], ctx_c=ctx[1], ctx_s=ctx[1], id_u_c=idu[1], id_s_c=ids_[1],
+            # key-share coincidences: tapes on which an ephemeral key pair equals the server's static one (the seed ServerSetup::new
+            # drew first is replayed where the login draws its key-share seed) or the two ephemeral keys equal each other
+            rng_c, rng_s, st_c, st_s = rng, rng, (wseed, b""), (wseed, b"")
+            coinc = [None, "server-ephemeral=server-static", "client-ephemeral=server-static", None, None, "client-ephemeral=server-ephemeral",
+                     "all-three-equal", None][wi % 8] if st.draws["lens"][0] == sz.nsk and not fake else None
+            if coinc:
+                static_seed = okv.stream_bytes(wseed, b"", st.draws["pos"], sz.nsk)
+                eseed = static_seed if "static" in coinc or "three" in coinc else proto.H("c09-eseed", wseed)[:1] * sz.nsk
+                if coinc != "client-ephemeral=server-static":
+                    ss = proto.H("c09-srv", wseed)
+                    st_s = (ss, okv.stream_bytes(ss, b"x", 1, 32) + eseed)    # masking nonce, then the key-share seed
+                    rng_s = s.rng("rs", st_s[0], st_s[1])
+                if coinc != "server-ephemeral=server-static":
+                    # the client draws its blind first (a suite-dependent number of draws): learn the shape from a dry run on the same seed
+                    cs = proto.H("c09-cli", wseed)
+                    dry = s.cmd("clogin_start", rng=s.rng("rc", cs), pw=pw[1], out_state="dry.cl", out_msg="dry.cq")
+                    lens = dry.draws["lens"]
+                    if lens[-2] == sz.nsk:
+                        st_c = (cs, okv.stream_bytes(cs, b"", 0, sum(lens[:-2])) + eseed)
+                        rng_c = s.rng("rc", st_c[0], st_c[1])
+                stats["coincidence_worlds"] = stats.get("coincidence_worlds", 0) + 1
+            lg = proto.login(s, rng_c, rng_s, "S", file_h, pw[1], cred[1], ctx_c=ctx[1], ctx_s=ctx[1], id_u_c=idu[1], id_s_c=ids_[1],
                              id_u_s=idu[1], id_s_s=ids_[1], ksf=ksfn, wire=wire, tag="l")
             evals += len(lg.steps)
+            if coinc and lg.creq and lg.cresp:
+                cepk = bx(lg.creq)[sz.noe + 32:]
+                sepk = bx(lg.cresp)[sz.noe + 32 + sz.npk + 32 + sz.nh + 32:][:sz.npk]
+                hit = {"server-ephemeral=server-static": sepk == bx(st.pk), "client-ephemeral=server-static": cepk == bx(st.pk),
+                       "client-ephemeral=server-ephemeral": cepk == sepk, "all-three-equal": cepk == sepk == bx(st.pk)}[coinc]
+                stats["coincidence_hits"] = stats.get("coincidence_hits", 0) + (1 if hit else 0)
             if fake:
                 if lg.failed_at != "clogin_finish":
                     viol.append({"sig": "C09 fake-record login did not fail at client finish", "what": "%s world %d: failed_at=%s" % (su, wi, lg.failed_at)})
@@ -265,8 +292,8 @@ def run_job(job):
                 continue
             startr = [r for n, r in lg.steps if n == "clogin_start"][0]
             w["login"] = {"clogin_state": bx(lg.clogin_state), "creq": bx(lg.creq), "cresp": bx(lg.cresp),
-                          "slogin_state": bx(lg.slogin_state), "start_draws": draws_of((wseed, b""), startr),
-                          "sstart_draws": draws_of((wseed, b""), lg.slogin_start)}
+                          "slogin_state": bx(lg.slogin_state), "start_draws": draws_of(st_c, startr),
+                          "sstart_draws": draws_of(st_s, lg.slogin_start)}
             if not fake:
                 w["login"].update({"cfin": bx(lg.cfin), "session_key_c": bx(lg.session_key_c), "session_key_s": bx(lg.session_key_s),
                                    "export_key": bx(lg.export_key), "server_s_pk": bx(lg.server_s_pk)})
@@ -337,4 +364,6 @@ def floors(tier, stats, results):
         out.append("fewer than 4 model-checked worlds for suites %s" % missing)
     if stats.get("fake_worlds", 0) < 20:
         out.append("fewer than 20 fake-record worlds")
+    if stats.get("coincidence_hits", 0) < 40:
+        out.append("fewer than 40 worlds in which two of the key-exchange public keys coincide")
     return out
